@@ -1234,7 +1234,15 @@ def rule_trip_table(ctx, rid="C02.trip"):
     tp = {k: "(?P<%s>%s)" % (k, v) for k, v in consts["_time_placeholder"].items()}
     # other methods of the class that these call are looked up on demand: every method of the class is available to the evaluation
     methods = {q.split(".", 1)[1]: fn for q, fn in fs["get_filename"].module.funcs.items() if fn.cls is cls and not any(d.endswith(".setter") for d in fn.decorators)}
-    funcs = {"to_datetime": lambda x: x}
+    funcs = {q: fn for q, fn in fs["get_filename"].module.funcs.items() if fn.cls is None}        # module-level helpers a restructured version may call
+    funcs["to_datetime"] = lambda x: x
+    modconsts = {}
+    for st in fs["get_filename"].module.tree.body:
+        if isinstance(st, ast.Assign) and len(st.targets) == 1 and isinstance(st.targets[0], ast.Name):
+            try:
+                modconsts[st.targets[0].id] = Machine(globs=modconsts).ev(st.value, dict(modconsts))
+            except AnalysisError:
+                pass
     wrong = None
     ncases = 0
     for template in TRIP_TEMPLATES:
@@ -1255,7 +1263,8 @@ def rule_trip_table(ctx, rid="C02.trip"):
         attrs.update({"_time_placeholder": dict(tp), "_user_placeholder": {}, "name": "fs", "path": template, "_special_chars": list(consts["_special_chars"]),
                       "year2_threshold": consts["year2_threshold"], "_end_time_superior": sup})
         me = Stub("self", attrs)
-        mods = {"os": Stub("os", {"sep": "/"})}
+        mods = dict(modconsts)
+        mods["os"] = Stub("os", {"sep": "/"})
         for t0, t1 in TRIP_TIMES:
             start, end = datetime(*t0), datetime(*t1)
             ncases += 1
@@ -1343,6 +1352,7 @@ def trip_evaluated(ctx, rid, *structural):
     for fn, args, _rids in structural:
         ctx.attempt(fn, *args)
     apply_decided(ctx)
+    return any(r_ == rid for r_, _w in getattr(ctx, "decided", []))
 
 
 def helpers_evaluated(ctx, rid="C02.helpers"):
@@ -1428,10 +1438,30 @@ def rule_fill_table(ctx, rid="C02.fill"):
     tp = {k: "(?P<%s>%s)" % (k, v) for k, v in tp.items()}
     wrong = None
     ncases = 0
+    methods = {q.split(".", 1)[1]: fn for q, fn in f.module.funcs.items() if fn.cls is cls and not any(d.endswith(".setter") for d in fn.decorators)}
+    helpers = {q: fn for q, fn in f.module.funcs.items() if fn.cls is None}
+    modconsts = {}
+    for st in f.module.tree.body:
+        if isinstance(st, ast.Assign) and len(st.targets) == 1 and isinstance(st.targets[0], ast.Name):
+            try:
+                modconsts[st.targets[0].id] = Machine(globs=modconsts).ev(st.value, dict(modconsts))        # module-level constants (tables, compiled patterns)
+            except AnalysisError:
+                pass
+    clsconsts = {}
+    for st in cls.body:
+        if isinstance(st, ast.Assign) and len(st.targets) == 1 and isinstance(st.targets[0], ast.Name):
+            try:
+                clsconsts[st.targets[0].id] = Machine(globs=modconsts).ev(st.value, dict(modconsts, **clsconsts))
+            except AnalysisError:
+                pass
     for template, user, extra in FILL_TABLE:
-        me = Stub("self", {"_time_placeholder": dict(tp), "_user_placeholder": dict(user), "name": "fs", "path": template})
-        env_mods = {"os": Stub("os", {"sep": "/"})}
-        got = call(f, me, template, dict(extra) if extra else None, False, _globals=env_mods)
+        attrs = dict(clsconsts)
+        attrs.update(methods)
+        attrs.update({"_time_placeholder": dict(tp), "_user_placeholder": dict(user), "name": "fs", "path": template})
+        me = Stub("self", attrs)
+        env_mods = dict(modconsts)
+        env_mods["os"] = Stub("os", {"sep": "/"})
+        got = call(f, me, template, dict(extra) if extra else None, False, funcs=helpers, _globals=env_mods)
         want = _fill_reference(template, {**tp, **user, **extra})
         if isinstance(want, tuple) or isinstance(got, tuple):
             ncases += 1
@@ -1452,7 +1482,7 @@ def rule_fill_table(ctx, rid="C02.fill"):
             gb = None if b_ is None else b_.groupdict()
             if ga != gb and wrong is None:
                 wrong = {"template": template, "name": nm, "regex": got[:160], "parsed as": ga, "expected": gb}
-        comp = call(f, me, template, dict(extra) if extra else None, True, _globals=env_mods)
+        comp = call(f, me, template, dict(extra) if extra else None, True, funcs=helpers, _globals=env_mods)
         if not (isinstance(comp, re.Pattern) and comp.pattern == got) and wrong is None:
             wrong = {"template": template, "compile=True": repr(comp)[:100], "expected": "re.compile of the same string"}
     ctx.ob("FileSet._fill_placeholders.table", wrong is None, "%d templates, %d (template, name) cases evaluated%s" % (len(FILL_TABLE), ncases, "" if wrong is None else "; first difference: %s" % wrong),
